@@ -83,7 +83,56 @@ def _cache_key(text, seed, extra=''):
     return h.hexdigest()[:24]
 
 
-def _run_verus_cached(path, text, seed, rlimit, tag):
+def _retry_isolated(path, r, seed, rlimit, regions):
+    """A function that ran out of solver resources in the whole-file run is re-checked on its own
+    (`--verify-function`: Verus then prunes the SMT context to what that function uses) with a larger budget and up to
+    three seeds.  A retry that finishes replaces the rlimit diagnostic: verified -> nothing left, failed -> its
+    verification errors are merged into the result.  Never turns a failure into a pass: only `rlimit` is retried."""
+    r.retries = []
+    if not r.rlimit or r.tool_errors:
+        return
+    names = set()
+    for rl in r.rlimit:
+        if not rl['spans'] or not rl['spans'][0][0]:
+            return
+        line = rl['spans'][0][0]
+        best = None
+        for reg in regions:
+            if reg[1] <= line <= reg[2] and (best is None or reg[1] >= best[1]):
+                best = reg
+        if best is None:
+            return
+        names.add(best[0])
+    cands = sorted(k for k, v in r.func_stats.items() if v.get('success') is False and k.split('::')[-1] in names)
+    if not cands or len(cands) > 6:
+        return
+    merged, all_done = [], True
+    for k in cands:
+        arg = '::'.join(k.split('::')[-2:])
+        done = False
+        for s in (seed, seed + 1, seed + 2):
+            rr = run_verus(path, seed=s, rlimit=(rlimit or 10) * 4, extra=['--verify-root', '--verify-function', arg])
+            r.retries.append({'function': k, 'seed': s, 'rlimit': (rlimit or 10) * 4, 'verified': rr.verified, 'errors': rr.error_count,
+                              'rlimit_hit': bool(rr.rlimit), 'tool_errors': len(rr.tool_errors), 'wall_s': round(rr.wall_s, 1)})
+            if not rr.tool_errors and not rr.rlimit and (rr.verified + rr.error_count) > 0:
+                merged.extend(rr.errors)
+                done = True
+                break
+        all_done = all_done and done
+    if all_done:
+        r.rlimit = []
+        seen = set((e['message'], tuple(map(tuple, e['spans']))) for e in r.errors)
+        for e in merged:
+            key = (e['message'], tuple(map(tuple, e['spans'])))
+            if key not in seen:
+                r.errors.append(e)
+                seen.add(key)
+        if r.exit not in (0, 1):
+            r.exit = 1 if r.errors else 0
+        r.exit = 1 if r.errors else 0
+
+
+def _run_verus_cached(path, text, seed, rlimit, tag, regions=None):
     os.makedirs(os.path.join(BUILD, 'cache'), exist_ok=True)
     key = _cache_key(text, seed, f'{rlimit}|{tag}')
     cpath = os.path.join(BUILD, 'cache', key + '.json')
@@ -100,6 +149,8 @@ def _run_verus_cached(path, text, seed, rlimit, tag):
             pass
     r = run_verus(path, seed=seed, rlimit=rlimit, multiple_errors=(1 if tag == 'canary' else 20))
     r.cached = False
+    if tag == 'main' and regions is not None:
+        _retry_isolated(path, r, seed, rlimit, regions)
     try:
         json.dump(r.__dict__, open(cpath, 'w'))
     except Exception:
@@ -132,7 +183,7 @@ def run_unit(unit, seed=0, canary=True, rlimit=None):
         u.undecided.append('forbidden construct: ' + fb)
     jobs = {}
     with cf.ThreadPoolExecutor(max_workers=2) as ex:
-        jobs['main'] = ex.submit(_run_verus_cached, gpath, g.text, seed, rlimit, 'main')
+        jobs['main'] = ex.submit(_run_verus_cached, gpath, g.text, seed, rlimit, 'main', g.all_fn_regions)
         if canary:
             try:
                 gc = generate(unit, tpath, REPO, canary=True)
